@@ -353,6 +353,20 @@ int main ()
     epsic::square_modulated_mode live (s1, w, n1); live.compute_cross_correlation (n2); epsic::square_modulated_mode fresh (s2, w, n2);
     double worst = 0; for (unsigned l=0; l<w+1; l++) worst = std::max (worst, std::fabs (live.get_crosscovariance(l)[0][0] - fresh.get_crosscovariance(l)[0][0]));
     O.put (worst); };
+  // oracle (history): the inner modulator of a rectangular model refuses a request (its scripted supply is exhausted: an exception)
+  // when a new impulse is due; the caller catches, the supply is refilled, and the requests continue: the t-th factor delivered
+  // is still draw floor(t/w).  Output: number of factors that differ from that rule, number of refusals that did not throw
+  OP("o.c07.refusal") { unsigned w = A.n(); unsigned first = A.n(); unsigned total = A.n(); unsigned tries = A.n(); epsic::mode base; base.set_Stokes (Stokes<double>(1,0,0,0));
+    scripted_mod* sm = new scripted_mod (&base, 1.0, 1.0); epsic::square_modulated_mode sq (sm, w, std::max (total, 2u));
+    std::vector<double> draws; for (unsigned q=0; q<total/w + 3; q++) draws.push_back (1.0 + 0.125 * q);
+    for (unsigned q=0; q<first && q<draws.size(); q++) sm->values.push_back (draws[q]);
+    long bad = 0, silent = 0; unsigned delivered = 0; bool refilled = false;
+    while (delivered < total) {
+      try { double f = sq.modulation(); if (f != draws[delivered / w]) bad++; delivered++; }
+      catch (Exhausted&) { if (refilled) { bad += 1000; break; }
+        for (unsigned t=1; t<tries; t++) { try { sq.modulation(); silent++; } catch (Exhausted&) { } }     // further requests while the supply is still empty
+        for (unsigned q=first; q<draws.size(); q++) sm->values.push_back (draws[q]); refilled = true; } }
+    O.put ((double) bad); O.put ((double) silent); };
   // oracle (history): the modulation index of a log-normal modulator is changed after a smoothing / rectangular model has been
   // built on it (and used): every reported moment must be the one of a model freshly built on a modulator with the new index.
   // Output: max relative |difference| over mean, covariance and the lag terms 0..w
